@@ -108,6 +108,10 @@ def monitor(state, op, o):
                         if o.get("composing") != "0":
                             return "still-composing-after-commit"
                     else:
+                        procs = sc.SCHEMAS.get(state.get("sid"), {}).get("procs", [])
+                        if "express_editor" in procs:
+                            # an auto-committing editor delivers a selection that covers the rest of the input at once
+                            return "select-not-delivered-at-once"
                         if sc.unhex(o.get("preview")) != expected:
                             return "select-preview!=shown"
     return None
